@@ -603,9 +603,10 @@ def run(ctx):
         'arbitrary tables is linear, row-wise, and scales with dr^(+-1) (reals); dr for daun/basex/dasch from the generated Jacobian '
         'statements, onion_bordas from its generated final scaling; NNLS solvers positively homogeneous (specification, any real field); '
         'symmetrisation (C06 model, all quadrants, axis 0 / 1) linear',
-        'PARTIAL: direct - only the scale invariance of each trapezoid term (kernel x spacing x prefactor) is proved '
-        '(C04_dr_direct_partial); summation, end-cell correction and linearity of direct and of onion_bordas are checked on the '
-        'implementation only',
+        'direct (python backend): dr scaling of the whole integral is a theorem (C04_dr_direct) about a model ASSEMBLED by hand '
+        '(proofs/DirectScaling.v) from the generated element-wise expressions; the assembling statements of direct.py (masks, '
+        'trapezoid calls, correction loop) are pinned textually by dr_sites.py, numpy.trapezoid / arccosh by specification; '
+        'linearity of direct and of onion_bordas is checked on the implementation only',
         'NUMERIC ONLY: linbasex, rbasex image construction, abel.Transform pipeline (C05 owns its model), set_center, radial_intensity, '
         'Distributions; linearity of scipy.ndimage interpolation',
         'cached bases: every call starts from cleaned module caches; basis_dir=None',
